@@ -297,5 +297,17 @@ BuiltProjected(n, len, isperm, violations) ==
     /\ len = n /\ isperm = TRUE /\ violations = 0
     /\ UNCHANGED <<T, sa, have>>
 
+(* projection of a large dictionary case: for each pattern the number of occurrences (generic window scan), *)
+(* of the list find_all_matches returned: its length, "every entry is an occurrence", "entries distinct",  *)
+(* number of adjacent entries out of suffix order; the (lo, hi, depth) of sa_match_continuation and of     *)
+(* da_match_max_length.  All and only the occurrences, in suffix order, in a rank range of that size.      *)
+DictProjItemAns(it) ==
+    /\ it.npos = it.occ /\ it.all_occ = TRUE /\ it.distinct = TRUE /\ it.viol = 0
+    /\ \A m \in {it.m, it.da} :
+          IF it.occ > 0 THEN m[3] = it.plen /\ m[2] - m[1] = it.occ /\ m[1] >= 0
+          ELSE m[3] < it.plen
+DictProjAns(n, len, items) == n = len /\ \A k \in 1..Len(items) : DictProjItemAns(items[k])
+DictProjected(n, len, items) == Holds(DictProjAns(n, len, items)) /\ Same
+
 TypeOK == IsText(T) /\ have \in BOOLEAN /\ (have => IsSA(T, sa))
 =============================================================================
